@@ -377,6 +377,16 @@ class HistogramBase(abc.ABC):
         if new_dtype != self.dtype:
             self.set_dtype(new_dtype)
 
+    def _adopt_content_dtype(self, array: np.ndarray) -> np.ndarray:
+        """Keep the reported dtype in line with directly assigned frequencies / errors2.
+
+        The histogram is promoted (never narrowed) to a type that can hold the new values.
+        """
+        if getattr(self, "_dtype", None) is None:
+            return array  # Called from the constructor, dtype is determined there
+        self._coerce_dtype(array.dtype)
+        return array.astype(self._dtype, copy=False)
+
     @property
     def bin_count(self) -> int:
         """Total number of bins."""
@@ -398,7 +408,7 @@ class HistogramBase(abc.ABC):
                 warnings.warn("Negative frequencies in the histogram.")
             else:
                 raise ValueError("Cannot have negative frequencies.")
-        self._frequencies = frequencies
+        self._frequencies = self._adopt_content_dtype(frequencies)
 
     @property
     def densities(self) -> np.ndarray:
@@ -449,7 +459,7 @@ class HistogramBase(abc.ABC):
             raise ValueError("Square errors must have same dimension as bins.")
         if np.any(array < 0):
             raise ValueError("Cannot have negative square errors.")
-        self._errors2 = array
+        self._errors2 = self._adopt_content_dtype(array)
 
     @property
     def errors(self) -> np.ndarray:
